@@ -785,8 +785,11 @@ class Pickled(OpcodeSequence):
     @property
     def properties(self) -> ASTProperties:
         if self._properties is None:
-            self._properties = ASTProperties()
-            self._properties.visit(self.ast)
+            # only cache a completed visit: if decompilation (or the visit) raises, the next access
+            # must raise again instead of returning an empty, never-filled ASTProperties
+            properties = ASTProperties()
+            properties.visit(self.ast)
+            self._properties = properties
         return self._properties
 
     @property
